@@ -1418,6 +1418,12 @@ class Interp:
             return acc
         if f is BUILTINS["sorted"] and args:
             return self.py_sorted(args[0], kwargs.get("key"), kwargs.get("reverse", False), node)
+        if f in (BUILTINS["all"], BUILTINS["any"]) and len(args) == 1:
+            # truth of abstract values goes through the interpreter (__bool__ of repository classes, Zero, ...)
+            items = self.iterate(args[0], node) if self.obj_class(args[0]) is not None else list(args[0])
+            if f is BUILTINS["all"]:
+                return all(self.truth(x, node) for x in items)
+            return any(self.truth(x, node) for x in items)
         if f is _b_len and len(args) == 1 and self.obj_class(args[0]) is not None and "__len__" not in args[0].attrs:
             m, _ = self.find_method(self.obj_class(args[0]), "__len__")
             if m is not None:
